@@ -999,8 +999,9 @@ def coalesce_feeds(rng, script, p):
         return script
     out = []
     for l in lines:
+        # (a PUBCOMP is never put into the read that carries its PUBREC: a conformant broker sends it after the PUBREL)
         if (out and l.startswith('FEED ') and out[-1].startswith('FEED ') and 'cuts=' not in l and 'cuts=' not in out[-1]
-                and rng.random() < p):
+                and not l.startswith('FEED 7') and rng.random() < p):
             out[-1] = out[-1] + l[5:]
         else:
             out.append(l)
@@ -1120,7 +1121,22 @@ def fam_C05(rng, tier):
             else:
                 s.feed(m.pingresp())
         s.feed(m.pingresp())
-        out.append(s.script())
+        sc = s.script()
+        out.append(sc)
+        # the same acknowledgements all in ONE transport read, and two per read
+        name, lines = sc
+        k0 = max(j for j, l in enumerate(lines) if l.startswith('OP ')) + 1
+        feeds = [l[5:] for l in lines[k0:] if l.startswith('FEED ')]
+        def grouped(size):
+            gs = []
+            for f in feeds:
+                if gs and len(gs[-1]) < size and not f.startswith('7'):     # the PUBCOMP comes after the PUBREL: own read
+                    gs[-1].append(f)
+                else:
+                    gs.append([f])
+            return ['FEED ' + ''.join(g) for g in gs]
+        out.append((name + '-one', lines[:k0] + grouped(99)))
+        out.append((name + '-pairs', lines[:k0] + grouped(2)))
     return out
 
 
